@@ -4,7 +4,7 @@ from ..framework import Case
 from ..common import hexs
 from .streamref import *
 
-LEAN_MODULES = ["Op2Proofs.Props.C13"]
+LEAN_MODULES = ["Op2Proofs.Props.C13", "Op2Proofs.Props.C13_Gen", "Op2Proofs.Props.C12_Gen"]
 RULE = ("slice parameter pairs (start,len) over {0,1,len-1,len,len+1,2^32,2^63,2^64-1,2^64-len,...}^2 on memory readers, "
         "file readers, slices of each and slices of slices: creation must succeed iff start+len <= parent length (in N) and then "
         "expose exactly that window (checked by reading it all and by boundary ops); interleaved histories over a parent and up "
@@ -13,7 +13,7 @@ RULE = ("slice parameter pairs (start,len) over {0,1,len-1,len,len+1,2^32,2^63,2
         "backend must give identical observations")
 PROVED = ("creation guard exact in N (incl. wrap-around) and the created slice = abstract reader over exactly the requested window, "
           "for any in-bounds-correct wrapped stream, to any nesting depth; sub-slicing; slice-here advances the parent iff it "
-          "succeeds (memory); every history observes the same on a memory reader and on any slice with the same window")
+          "succeeds (memory); every history observes the same on a memory reader and on any slice with the same window; L2: the SliceReader constructor + Initialize, Slice(start,len) and Slice(len) are re-translated from the C++ on every run (Gen/Streams.lean) and proved equal to Slice.create / slice2 / slice1 on all 64-bit values (C13_gen_*, with the read/seek guards of C12_gen_slice_*)")
 PARTIAL = ("independence of distinct C++ objects is structural in the model (values); hidden aliasing in the implementation is "
            "looked for by the interleaving runs only. VolFile/ClmFile member streams are covered under C05/C01.")
 TRUSTED = ["in-bounds behaviour of std::ifstream as modelled by Stream.FileR; a copied FileReader reopens the file at position 0"]
